@@ -29,7 +29,12 @@ from ..rules.common import explore, where, short, path_terms
 
 def _header_columns(ck, writer: FunctionInfo) -> Tuple[List[str], ast.AST]:
     best = None
-    for n in ast.walk(writer.node):
+    # string constants of the writer itself and of the module-level names (bound once) it reads
+    mod = writer.module
+    used = {n.id for n in ast.walk(writer.node) if isinstance(n, ast.Name) and isinstance(n.ctx, ast.Load)}
+    extra = [v for k, v in mod.assigns.items() if k in used and
+             sum(1 for x in ast.walk(mod.tree) if isinstance(x, ast.Name) and x.id == k and isinstance(x.ctx, ast.Store)) == 1]
+    for n in list(ast.walk(writer.node)) + [y for v in extra for y in ast.walk(v)]:
         if isinstance(n, ast.Constant) and isinstance(n.value, str) and n.value.startswith("#") and "\t" in n.value:
             cols = [c.strip() for c in n.value.lstrip("#").split("\t")]
             cols = [c for c in cols if c]
